@@ -184,6 +184,10 @@ def check_case(case):
                             out.append({"key": "rejects-valid-call", "what": "%d-mer %s size %s w=%d raised %r" % (len(seq), typ, size, w, e),
                                         "case": dict(case, seq=seq)})
                             continue
+                        if arr.shape != (2, len(seq) - w + 1):
+                            out.append({"key": "shape", "what": "%d-mer %s size %s w=%d: shape %r, expected (2,%d)"
+                                        % (len(seq), typ, size, w, arr.shape, len(seq) - w + 1), "case": dict(case, seq=seq)})
+                            continue
                         if typ == "WF":
                             for k in (0, len(seq) // 2, len(seq) - w):
                                 red, A = reduce_ref(seq[k:k + w], size, None)
@@ -191,6 +195,25 @@ def check_case(case):
                                     out.append({"key": "WF-entropy", "what": "%d-mer size %s w=%d window %d: %r vs entropy %r"
                                                 % (len(seq), size, w, k, float(arr[1][k]), entropy(red, A)), "case": dict(case, seq=seq)})
                                     break
+        # windows of 256 and more residues (count types must not wrap)
+        for seq, size, w in (("A" * 300, 20, 300), ("A" * 300, 2, 256), (("L" * 9 + "K") * 64, 2, 400), (("LKF" * 100), 3, 257),
+                             (("LLLK" * 160), 2, 512)):
+            calls += 1
+            try:
+                arr = np.asarray(SP(seq).get_linear_complexity("WF", size, blobLen=w, stepSize=7))
+            except Exception as e:  # noqa
+                out.append({"key": "rejects-valid-call", "what": "%d-mer WF size %s w=%d raised %r" % (len(seq), size, w, e), "case": dict(case, seq=seq)})
+                continue
+            K = (len(seq) - w) // 7 + 1
+            if arr.shape != (2, K):
+                out.append({"key": "shape", "what": "%d-mer w=%d s=7: shape %r" % (len(seq), w, arr.shape), "case": dict(case, seq=seq)})
+                continue
+            for k in range(K):
+                red, A = reduce_ref(seq[7 * k:7 * k + w], size, None)
+                if not core.close(arr[1][k], entropy(red, A), 1e-9, 1e-12):
+                    out.append({"key": "WF-entropy", "what": "%d-mer size %s w=%d window %d: %r vs entropy %r"
+                                % (len(seq), size, w, k, float(arr[1][k]), entropy(red, A)), "case": dict(case, seq=seq[:40] + "...")})
+                    break
         for word in case["words"]:
             sub = {"kind": "word", "seq": word, "sizes": case["sizes"], "uas": []}
             o2, c2 = check_case(sub)
